@@ -20,7 +20,10 @@ import (
 const c20Base = `
 put_list([]).
 put_list([H|T]) :- put_char(H), put_list(T).
-show(G) :- catch(findall(X, call(G, X), L), error(_, _), L = [n]), put_char('<'), put_list(L), put_char('>').
+show(G) :- catch(findall(X, call(G, X), L), error(_, _), L = [n]), put_char('<'), put_list(L), put_char('|'), probe(G, [a, c, y, z]), kind(G), put_char('>').
+kind(G) :- T =.. [G, _], catch((clause(T, _) -> put_char(d) ; put_char(e)), error(permission_error(_, _, _), _), put_char(s)).
+probe(_, []).
+probe(G, [C|Cs]) :- ( catch(call(G, C), _, fail) -> put_char(C) ; true ), probe(G, Cs).
 `
 
 type c20Item struct {
@@ -508,6 +511,9 @@ func c20Work(w *h.W) {
 					return
 				}
 				second := append([]c20Item{mf}, t...)
+				// the first text declares the predicate dynamic as well: it stays so whatever the later texts declare
+				dyn := c20Item{Kind: "dynamic", Text: ":- dynamic(" + pred + ").", Pred: pred}
+				emit(&c20Case{Loads: []c20Load{{Items: []c20Item{mf, dyn, c1}}, {Items: second}}}, len(t)+3)
 				emit(&c20Case{Loads: []c20Load{{Items: []c20Item{mf, c1}}, {Items: second}}}, len(t)+2)
 				emit(&c20Case{Loads: []c20Load{{Items: []c20Item{mf, c1}}, {Items: second}, {Items: []c20Item{mf, cls[0]}}}}, len(t)+4)
 			}
@@ -543,8 +549,8 @@ func c20Replay(b []byte) (string, string, bool) {
 func init() {
 	h.Register(&h.Check{
 		ID: "C20",
-		Rule: "all program texts that are sequences of <= N items out of 16 (facts and rules of p/1, q/1, r/1 incl. a clause that calls its own predicate, a grammar rule, dynamic/discontiguous/multifile declarations, initialization goals and directives that OBSERVE the database by writing one character per answer) loaded through Exec and through consult/1 from an in-memory fs.FS; fault enumeration: into every text of <= N-1 items, at every position, each of 6 faults (unbalanced parenthesis, missing operator, unterminated quote, a number as clause, a number as body, stray close) plus the text truncated before its final full stop and the text followed by each of 9 unfinished tokens / comments (quoted atom, string, bracketed comment, 0', a continuation escape, an open argument list, a bare name), each on top of every small earlier load; reload after failure: a faulty text stored as lib.pl and loaded by consult(lib), consult('lib.pl') or :- ensure_loaded(lib), then the repaired text under the same name loaded in each of the three ways; multifile accumulation: a multifile predicate with one clause, then every text of <= 2 items behind the same declaration, then a third text; two-load histories: every small text followed by every text of <= 2..3 items. Distinct = texts.",
-		Explanation: "state = the reference database after the loads so far (per predicate: clauses in order, dynamic/multifile/discontiguous flags); transition = one load on the real interpreter; the reference loader stages the text, fails as a whole on any fault or on clauses separated without discontiguous/1, commits (replace, or append when both definitions are multifile), then runs initialization goals; compared after every load: error or not, the output of directives (at their position, seeing earlier loads only) and initialization goals (after the commit), and the answers of every predicate of the signature in order",
+		Rule: "all program texts that are sequences of <= N items out of 16 (facts and rules of p/1, q/1, r/1 incl. a clause that calls its own predicate, a grammar rule, dynamic/discontiguous/multifile declarations, initialization goals and directives that OBSERVE the database by writing one character per answer) loaded through Exec and through consult/1 from an in-memory fs.FS; fault enumeration: into every text of <= N-1 items, at every position, each of 6 faults (unbalanced parenthesis, missing operator, unterminated quote, a number as clause, a number as body, stray close) plus the text truncated before its final full stop and the text followed by each of 9 unfinished tokens / comments (quoted atom, string, bracketed comment, 0', a continuation escape, an open argument list, a bare name), each on top of every small earlier load; reload after failure: a faulty text stored as lib.pl and loaded by consult(lib), consult('lib.pl') or :- ensure_loaded(lib), then the repaired text under the same name loaded in each of the three ways; multifile accumulation: a multifile predicate (also declared dynamic, or not) with one clause, then every text of <= 2 items behind the same declaration, then a third text; two-load histories: every small text followed by every text of <= 2..3 items. Distinct = texts.",
+		Explanation: "state = the reference database after the loads so far (per predicate: clauses in order, dynamic/multifile/discontiguous flags); transition = one load on the real interpreter; the reference loader stages the text, fails as a whole on any fault or on clauses separated without discontiguous/1, commits (replace, or append when both definitions are multifile), then runs initialization goals; compared after every load: error or not, the output of directives (at their position, seeing earlier loads only) and initialization goals (after the commit), and the answers of every predicate of the signature in order, called with an unbound argument and with each of 4 constants, and whether clause/2 may look at it (dynamic or not)",
 		Assumptions: []string{"what a directive sees of its OWN text's preceding clauses is not fixed by the property and is never asserted (the observing directive only looks at r/1, which those texts do not define)", "a failing or throwing directive / initialization goal is not generated"},
 		Work:        c20Work,
 		Replay:      c20Replay,
